@@ -37,6 +37,13 @@ pub open spec fn has_between(s: Seq<String>, a: int, b: int, x: String) -> bool 
 pub open spec fn set_put_rel(s0: Set<String>, s1: Set<String>, args: Seq<String>, upto: int) -> bool {
     forall|x: String| #[trigger] s1.contains(x) <==> (s0.contains(x) || has_between(args, 1, upto, x))
 }
+/// a listing: every item is a string drawn from `dom`, no item twice, every element of `dom` listed (order unspecified)
+pub open spec fn items_in(a: Seq<StateValue>, dom: Set<String>) -> bool { forall|j: int| 0 <= j < a.len() ==> (#[trigger] a[j]) is String && dom.contains(a[j]->String_0) }
+pub open spec fn items_distinct(a: Seq<StateValue>) -> bool { forall|i: int, j: int| 0 <= i < j < a.len() ==> #[trigger] a[i] != #[trigger] a[j] }
+pub open spec fn item_listed(a: Seq<StateValue>, k: String) -> bool { exists|i: int| 0 <= i < a.len() && #[trigger] a[i] == StateValue::String(k) }
+pub open spec fn lists_exactly(a: Seq<StateValue>, dom: Set<String>) -> bool {
+    items_in(a, dom) && items_distinct(a) && forall|k: String| #[trigger] dom.contains(k) ==> item_listed(a, k)
+}
 } // mod collspec
 pub mod colllemmas {
 use vstd::prelude::*;
